@@ -15,7 +15,7 @@ fn io_res(r: std::io::Result<()>) -> Value {
 pub fn run(case: &Value) -> Value {
     let root = sandbox(&case["id"]);
     build_tree(&root, &case["init"]);
-    let pre = snapshot(&root);
+    let mut pre = snapshot(&root);
     let layers = path_of(&root, &case["layers"]);
     let name: LayerName = string_of(&case["name"]).parse().expect("layer name");
     let res = match case["op"].as_str().unwrap() {
@@ -30,6 +30,42 @@ pub fn run(case: &Value) -> Value {
             match ctx.uncached_layer(&name, libcnb::layer::UncachedLayerDefinition { build: true, launch: false }) {
                 Ok(_) => json!({"ok": true}),
                 Err(e) => json!({"ok": false, "err": "other", "text": format!("{e:?}").chars().take(160).collect::<String>()}),
+            }
+        }
+        // C01 at the level of the file system: a fresh layer, then entries somebody planted at its SBOM paths,
+        // then LayerRef::write_sboms; the snapshot "before" is taken after the planting
+        "write_sboms" => {
+            let ctx = crate::c01::context(&layers);
+            match ctx.uncached_layer(&name, libcnb::layer::UncachedLayerDefinition { build: true, launch: false }) {
+                Ok(layer_ref) => {
+                    build_tree(&root, &case["plant"]);
+                    pre = snapshot(&root);
+                    let sboms: Vec<libcnb::sbom::Sbom> = case["sboms"]
+                        .as_array()
+                        .unwrap()
+                        .iter()
+                        .map(|x| {
+                            let f = match x[0].as_u64().unwrap() {
+                                0 => libcnb::data::sbom::SbomFormat::CycloneDxJson,
+                                1 => libcnb::data::sbom::SbomFormat::SpdxJson,
+                                _ => libcnb::data::sbom::SbomFormat::SyftJson,
+                            };
+                            libcnb::sbom::Sbom::from_bytes(f, bytes_of(&x[1]))
+                        })
+                        .collect();
+                    match layer_ref.write_sboms(&sboms) {
+                        Ok(()) => json!({"ok": true}),
+                        // (the inner error type is not exported: its I/O cause is reached through Error::source)
+                        Err(libcnb::Error::LayerError(libcnb::layer::LayerError::WriteLayerError(libcnb::layer::WriteLayerError::ReplaceLayerSbomsError(inner)))) => {
+                            match std::error::Error::source(&inner).and_then(|s| s.downcast_ref::<std::io::Error>()) {
+                                Some(e) => json!({"ok": false, "err": errno_name(e)}),
+                                None => json!({"ok": false, "err": "other", "text": format!("{inner:?}").chars().take(160).collect::<String>()}),
+                            }
+                        }
+                        Err(e) => json!({"ok": false, "err": "other", "text": format!("{e:?}").chars().take(160).collect::<String>()}),
+                    }
+                }
+                Err(e) => json!({"ok": false, "err": "setup", "text": format!("{e:?}").chars().take(160).collect::<String>()}),
             }
         }
         o => panic!("op {o}"),
